@@ -90,7 +90,7 @@ macro_rules | `(tactic| h_close) => `(tactic|
   ((try dsimp only at *)
    (try simp only [height_mk, height_newExpr, height_newTypeExpr, height_newAssign, height_setLine,
      height_setL0_map_setLine, height_nil, heightL_nil, heightL_cons, heightL_append,
-     heightL_reverse, Nat.max_zero, Nat.zero_max] at *)
+     heightL_reverse, Nat.max_zero, Nat.zero_max, Node.setRhs] at *)
    omega))
 
 syntax "hpost_leaf" : tactic
